@@ -4,6 +4,7 @@ package c04
 import (
 	"encoding/json"
 	"fmt"
+	"html"
 	"os"
 	"path/filepath"
 	"sort"
@@ -157,6 +158,12 @@ func (c Case) template() string {
 		return "{{if .C}}<" + c.Elem + "{{else}}<" + c.Elem2 + "{{end}} " + c.Attr + `="{{.V}}">`
 	case "condattr":
 		return "<" + c.Elem + " {{if .C}}" + c.Attr + "{{else}}" + c.Attr2 + `{{end}}="{{.V}}">`
+	case "condattrempty":
+		return "<" + c.Elem + " {{if .C}}" + c.Attr + `{{end}}="{{.V}}">`
+	case "condboth":
+		return "{{if .C}}<" + c.Elem + "{{else}}<" + c.Elem2 + "{{end}} {{if .D}}" + c.Attr + "{{else}}" + c.Attr2 + `{{end}}="{{.V}}">`
+	case "condpartial":
+		return "<" + c.Elem + " " + c.Attr + `="{{if .C}}{{else}}` + c.Attr2 + `{{end}}{{.V}}">`
 	case "condcontent":
 		return "{{if .C}}<" + c.Elem + ">{{else}}<" + c.Elem2 + ">{{end}}{{.V}}"
 	}
@@ -199,7 +206,13 @@ func normalizedURL(v string) bool {
 
 // judge: may the engine, for a position whose reviewed class is cls, answer probe p with (out, err)?
 // elemName/attrName locate the value in the output. Returns "" if acceptable.
-func judge(cls string, c Case, p probe, out string, err error, branch bool) string {
+func judge(cls string, c Case, p probe, out string, err error, bc, bd bool) string {
+	partialStatic := ""
+	if strings.HasPrefix(cls, "Partial:") {
+		// {{if}}{{else}}STATIC{{end}}{{.V}} rendered with the static branch: a static partial value
+		cls = cls[len("Partial:"):]
+		partialStatic = html.UnescapeString(c.Attr2)
+	}
 	if cls == "Rejected" {
 		if err == nil {
 			return fmt.Sprintf("position not in the reviewed policy, but probe %s was accepted: output %q", p.name, out)
@@ -232,9 +245,10 @@ func judge(cls string, c Case, p probe, out string, err error, branch bool) stri
 	}
 	st := r.Tokens[0]
 	elem := c.Elem
-	if !branch && c.Elem2 != "" {
+	if !bc && (c.Pos == "condelem" || c.Pos == "condcontent" || c.Pos == "condboth") {
 		elem = c.Elem2
 	}
+
 	if st.Name != asciiLower(elem) {
 		return fmt.Sprintf("output %q: first tag is %q, want %q", out, st.Name, asciiLower(elem))
 	}
@@ -264,7 +278,7 @@ func judge(cls string, c Case, p probe, out string, err error, branch bool) stri
 		return ""
 	}
 	attr := c.Attr
-	if !branch && c.Attr2 != "" {
+	if (c.Pos == "condattr" && !bc) || (c.Pos == "condboth" && !bd) {
 		attr = c.Attr2
 	}
 	var av *htmltok.Attr
@@ -284,11 +298,19 @@ func judge(cls string, c Case, p probe, out string, err error, branch bool) stri
 		return fmt.Sprintf("probe %s: raw attribute value %q is not HTML-escaped (output %q)", p.name, av.RawValue, out)
 	}
 	v := av.Value
+	isPartial := c.Pos == "partial"
 	if c.Pos == "partial" {
 		if !strings.HasPrefix(v, "x") {
 			return fmt.Sprintf("probe %s: static prefix lost in %q", p.name, out)
 		}
 		v = v[1:]
+	}
+	if partialStatic != "" {
+		if !strings.HasPrefix(v, partialStatic) {
+			return fmt.Sprintf("probe %s: static prefix lost in %q", p.name, out)
+		}
+		v = v[len(partialStatic):]
+		isPartial = true
 	}
 	switch cls {
 	case "None":
@@ -296,7 +318,7 @@ func judge(cls string, c Case, p probe, out string, err error, branch bool) stri
 			return fmt.Sprintf("class None: probe %s must be emitted escaped and unchanged, got value %q (output %q)", p.name, v, out)
 		}
 	case "URL", "TrustedResourceURLOrURL":
-		if c.Pos == "partial" {
+		if isPartial {
 			// after the static prefix "x" the engine must refuse (prefix could still become a scheme)
 			return fmt.Sprintf("class %s: probe %s accepted after the scheme-less static prefix \"x\": output %q", cls, p.name, out)
 		}
@@ -315,12 +337,12 @@ func judge(cls string, c Case, p probe, out string, err error, branch bool) stri
 				return fmt.Sprintf("class URLSet: probe %s produced a javascript: candidate in %q", p.name, av.Value)
 			}
 		}
-		if p.name == "hostile" && av.Value != "about:invalid#zGoSafez" && c.Pos != "partial" {
+		if p.name == "hostile" && av.Value != "about:invalid#zGoSafez" && !isPartial {
 			// the hostile probe has two descriptors: no candidate may survive
 			return fmt.Sprintf("class URLSet: hostile probe survived as %q", av.Value)
 		}
 	case "AsyncEnum", "DirEnum", "LoadingEnum", "TargetEnum":
-		if c.Pos == "partial" {
+		if isPartial {
 			return fmt.Sprintf("class %s: static partial value must be refused, probe %s gave %q", cls, p.name, out)
 		}
 		ok := false
@@ -338,21 +360,41 @@ func judge(cls string, c Case, p probe, out string, err error, branch bool) stri
 	return ""
 }
 
-func classOf(c Case, branch bool) string {
+// classOf: the reviewed class of the position that is actually rendered for the branch choices (bc: element / first
+// conditional, bd: attribute conditional of "condboth").
+func classOf(c Case, bc, bd bool) string {
 	elem, attr := c.Elem, c.Attr
-	if !branch {
-		if c.Elem2 != "" {
+	switch c.Pos {
+	case "condelem", "condcontent":
+		if !bc {
 			elem = c.Elem2
 		}
-		if c.Attr2 != "" {
+	case "condattr":
+		if !bc {
 			attr = c.Attr2
+		}
+	case "condboth":
+		if !bc {
+			elem = c.Elem2
+		}
+		if !bd {
+			attr = c.Attr2
+		}
+	case "condattrempty":
+		if !bc {
+			return "Rejected" // the attribute has no name at all
 		}
 	}
 	switch c.Pos {
 	case "content", "condcontent":
 		return contentClass(elem)
-	case "dq", "sq", "partial", "condelem", "condattr":
+	case "dq", "sq", "partial", "condelem", "condattr", "condboth", "condattrempty":
 		return attrClass(elem, attr, c.Rel)
+	case "condpartial":
+		if bc {
+			return attrClass(elem, attr, c.Rel)
+		}
+		return "Partial:" + attrClass(elem, attr, c.Rel)
 	case "tagname":
 		return "TextOnly"
 	default: // unquoted, tagsuffix, attrname, attrsuffix
@@ -370,30 +412,27 @@ func check(c Case) evid.Outcome {
 		return o
 	}
 	accepted := 0
-	cond := c.Pos == "condelem" || c.Pos == "condattr" || c.Pos == "condcontent"
+	type br struct{ c, d bool }
+	branches := []br{{true, true}}
+	switch c.Pos {
+	case "condelem", "condattr", "condcontent", "condattrempty", "condpartial":
+		branches = []br{{true, true}, {false, true}}
+	case "condboth":
+		branches = []br{{true, true}, {true, false}, {false, true}, {false, false}}
+	}
 	for _, p := range probes {
-		for _, branch := range []bool{true, false} {
-			if !branch && !cond {
-				continue
-			}
-			cls := classOf(c, branch)
-			if cond {
-				// a conditional name must satisfy the policy of both alternatives: the stricter verdict applies
-				other := classOf(c, !branch)
-				if other == "Rejected" {
-					cls = "Rejected"
-				}
-			}
-			out, err := tx.Exec(t, map[string]interface{}{"V": tx.Typed(p.kind, p.s), "C": branch})
+		for _, b := range branches {
+			cls := classOf(c, b.c, b.d)
+			out, err := tx.Exec(t, map[string]interface{}{"V": tx.Typed(p.kind, p.s), "C": b.c, "D": b.d})
 			if err == nil {
 				accepted++
 			}
-			if msg := judge(cls, c, p, out, err, branch); msg != "" {
-				return evid.Viol("template %q (reviewed class %s): %s", text, cls, msg)
+			if msg := judge(cls, c, p, out, err, b.c, b.d); msg != "" {
+				return evid.Viol("template %q, branches C=%v D=%v (reviewed class %s): %s", text, b.c, b.d, cls, msg)
 			}
 		}
 	}
-	o.Labels = append(o.Labels, "class-"+classOf(c, true))
+	o.Labels = append(o.Labels, "class-"+classOf(c, true, true))
 	if accepted > 0 {
 		o.Labels = append(o.Labels, "some-probe-accepted")
 	} else {
@@ -462,6 +501,15 @@ func tableCases() []Case {
 		}
 	}
 	cs = append(cs, Case{Pos: "tagname"})
+	// conditional shapes over representative rows of every class
+	reps := [][2]string{{"a", "href"}, {"a", "title"}, {"a", "target"}, {"div", "dir"}, {"div", "id"}, {"div", "style"}, {"img", "src"}, {"img", "srcset"}, {"img", "loading"}, {"script", "src"}, {"script", "async"}, {"iframe", "srcdoc"}, {"form", "action"}, {"input", "accept"}, {"div", "data-x"}, {"link", "href"}, {"div", "onclick"}, {"foo", "title"}}
+	for _, r1 := range reps {
+		cs = append(cs, Case{Pos: "condattrempty", Elem: r1[0], Attr: r1[1]}, Case{Pos: "condpartial", Elem: r1[0], Attr: r1[1], Attr2: "x"}, Case{Pos: "condpartial", Elem: r1[0], Attr: r1[1], Attr2: "java"}, Case{Pos: "condpartial", Elem: r1[0], Attr: r1[1], Attr2: "/p/"})
+		for _, r2 := range reps {
+			cs = append(cs, Case{Pos: "condboth", Elem: r1[0], Attr: r1[1], Elem2: r2[0], Attr2: r2[1]})
+			cs = append(cs, Case{Pos: "condelem", Elem: r1[0], Elem2: r2[0], Attr: r1[1]}, Case{Pos: "condattr", Elem: r1[0], Attr: r1[1], Attr2: r2[1]})
+		}
+	}
 	return cs
 }
 
@@ -611,7 +659,7 @@ func fixName(n string, attr bool) string {
 }
 
 func gen(t *rapid.T) Case {
-	pos := rapid.SampledFrom([]string{"content", "dq", "dq", "sq", "unquoted", "partial", "tagsuffix", "attrname", "attrsuffix", "condelem", "condattr", "condcontent", "dq-link"}).Draw(t, "pos")
+	pos := rapid.SampledFrom([]string{"content", "dq", "dq", "sq", "unquoted", "partial", "tagsuffix", "attrname", "attrsuffix", "condelem", "condattr", "condcontent", "condboth", "condattrempty", "condpartial", "dq-link"}).Draw(t, "pos")
 	c := Case{Pos: pos, Elem: genName(t, "elem", false)}
 	if pos == "dq-link" {
 		c.Pos, c.Elem, c.Attr = "dq", rapid.SampledFrom([]string{"link", "LINK", "Link"}).Draw(t, "link"), rapid.SampledFrom([]string{"href", "HREF", "src", "hreflang", "data-href"}).Draw(t, "linkattr")
@@ -627,11 +675,14 @@ func gen(t *rapid.T) Case {
 	if pos != "content" && pos != "tagsuffix" && pos != "attrname" && pos != "condcontent" {
 		c.Attr = genName(t, "attr", true)
 	}
-	if pos == "condelem" || pos == "condcontent" {
+	if pos == "condelem" || pos == "condcontent" || pos == "condboth" {
 		c.Elem2 = genName(t, "elem2", false)
 	}
-	if pos == "condattr" {
+	if pos == "condattr" || pos == "condboth" {
 		c.Attr2 = genName(t, "attr2", true)
+	}
+	if pos == "condpartial" {
+		c.Attr2 = rapid.SampledFrom([]string{"x", "java", "/p/", "lt", "a b", "&amp;", "https://h/"}).Draw(t, "static")
 	}
 	if (pos == "content" || pos == "condcontent") && (names.VoidElements[asciiLower(c.Elem)] || names.VoidElements[asciiLower(c.Elem2)]) {
 		c.Pos, c.Attr, c.Elem2 = "dq", "title", ""
